@@ -90,6 +90,11 @@ struct Register { Register(const std::string& name, const std::string& prop, con
                            std::function<void(Env&)> body) { registry().push_back({name, prop, descr, body}); } };
 
 std::string jsonEscape(const std::string& s);
+// observation digest: glue code reports every observable output (read-backs, dumps, verdicts) of the case being executed; the runner folds the
+// per-case hash into an order-independent total (counter "__digest") that the uninitialised-read differential (C20) compares between build variants
+void obs(const std::string& s);
+void obs(uint64_t v);
+uint64_t takeCaseDigest();
 double nowMono();
 
 }  // namespace verif
